@@ -618,6 +618,9 @@ class ExcelModel:
             if k in dsp.data_nodes and k not in dsp.default_values:
                 dsp.set_default_value(k, v.value)
 
+        if sh.SELF in dsp.default_values:  # Not the model's solution.
+            dsp.set_default_value(sh.SELF, dsp)
+
         func = self.compile_class(
             dsp=dsp,
             function_id=self.dsp.name,
